@@ -18,6 +18,12 @@ type AnalyzeOpts struct {
 	// Rename gives canonical names to parameters (by original name), so that
 	// two functions can be analysed over the same input sources.
 	Rename map[string]string
+	// InitPkg: evaluate this package's initialiser first (relative to the
+	// module path, "" = root) so that constant tables have their contents.
+	InitPkg *string
+	// Sess: reuse an interpreter whose base state already holds evaluated
+	// package initialisers.
+	Sess *Session
 	// Setup tweaks the interpreter before the run.
 	Setup func(in *Interp)
 	// Pre runs after parameters are built and may seed the initial state.
@@ -78,10 +84,19 @@ func (in *Interp) paramVal(name string, t types.Type, opts *AnalyzeOpts) Val {
 // Analyze runs fn on fully symbolic inputs.
 func Analyze(P *Program, fn *ssa.Function, opts *AnalyzeOpts) *Summary {
 	in := newInterp(P)
+	st := newState()
+	if opts != nil && opts.Sess != nil {
+		in = opts.Sess.in
+		in.events, in.Fail, in.steps = nil, opts.Sess.fail, 0
+		in.PureInvoke, in.InvokeHook, in.MapLookup, in.Intrinsic = false, nil, nil, nil
+		st = opts.Sess.base.clone()
+	}
 	if opts != nil && opts.Setup != nil {
 		opts.Setup(in)
 	}
-	st := newState()
+	if opts != nil && opts.InitPkg != nil {
+		st = in.runInit(*opts.InitPkg, st)
+	}
 	var params []Val
 	for i, p := range fn.Params {
 		name := p.Name()
@@ -253,6 +268,7 @@ func AnalyzeLoop(P *Program, fn *ssa.Function, opts *AnalyzeOpts) (*LoopStep, er
 		f.rpoIx[b.Index] = i
 	}
 	f.findLoops()
+	f.computeLoopExt()
 	var H *ssa.BasicBlock
 	for _, b := range f.rpo {
 		if _, ok := f.loops[b.Index]; ok {
@@ -327,4 +343,52 @@ func AnalyzeLoop(P *Program, fn *ssa.Function, opts *AnalyzeOpts) (*LoopStep, er
 	ls.Ret = ret
 	ls.Sum = &Summary{Fn: fn, Params: params, Ret: ret, Out: out, Events: in.events, in: in, Init: newState()}
 	return ls, nil
+}
+
+// runInit evaluates the package initialiser of pkgRel abstractly (other
+// packages' initialisers stay opaque) and returns the resulting state.
+func (in *Interp) runInit(pkgRel string, st *State) *State {
+	path := modPath
+	if pkgRel != "" {
+		path = modPath + "/" + pkgRel
+	}
+	sp := in.P.ByPkg[path]
+	if sp == nil {
+		in.fail("package %s not loaded", path)
+		return st
+	}
+	initFn := sp.Func("init")
+	if g, ok := sp.Members["init$guard"].(*ssa.Global); ok {
+		in.setCell(st, in.globalObj(g), "", constInt(0, 1, false))
+	}
+	saved := in.OpaqueFn
+	in.OpaqueFn = func(fn *ssa.Function) bool {
+		if fn.Name() == "init" && fn.Pkg != sp {
+			return true
+		}
+		return saved != nil && saved(fn)
+	}
+	in.initMode = true
+	_, out := in.Call(initFn, nil, nil, st)
+	in.initMode = false
+	in.OpaqueFn = saved
+	in.events = nil
+	return out
+}
+
+// Session is an interpreter with the initialisers of some packages already
+// evaluated; analyses started from it share the resulting global state.
+type Session struct {
+	in   *Interp
+	base *State
+	fail string
+}
+
+func NewSession(P *Program, initPkgs ...string) *Session {
+	in := newInterp(P)
+	st := newState()
+	for _, p := range initPkgs {
+		st = in.runInit(p, st)
+	}
+	return &Session{in: in, base: st, fail: in.Fail}
 }
